@@ -247,6 +247,79 @@ Definition M_gsubseq_read (data : list N) (pos : N) : outcome (list (N * N) * li
   end.
 
 (* ------------------------------------------------------------------ *)
+(* GSUB 4.1  {Cov coverage.Table; Repl [][]Ligature{In []glyph.ID; Out}}  *)
+
+Definition lig := (N * list N)%type.                 (* (Out, In) *)
+Definition lig_size (l : lig) : N := 4 + 2 * lenN (snd l).
+Fixpoint ligs_size (ls : list lig) : N :=
+  match ls with [] => 0 | l :: r => lig_size l + ligs_size r end.
+Definition set_size (s : list lig) : N := 2 + 2 * lenN s + ligs_size s.
+Fixpoint sets_size (ss : list (list lig)) : N :=
+  match ss with [] => 0 | s :: r => set_size s + sets_size r end.
+
+Definition M_gsub41_len (cov : list (N * Z)) (sets : list (list lig)) : outcome N :=
+  n <- M_cov_encode_len cov ;; Ok (6 + 2 * lenN sets + sets_size sets + n).
+
+(* ligatureSetOffsets[i] = uint16(total); total += size of the set *)
+Fixpoint set_offs (ss : list (list lig)) (off : N) : list N :=
+  match ss with [] => [] | s :: r => off :: set_offs r (off + set_size s) end.
+(* pos := 2 + 2*ligatureCount; for each ligature: write pos; pos += 4 + 2*len(In) *)
+Fixpoint lig_offs (ls : list lig) (pos : N) : list N :=
+  match ls with [] => [] | l :: r => pos :: lig_offs r (pos + lig_size l) end.
+
+Definition lig_bytes (l : lig) : list N :=
+  be16 (fst l) ++ be16 (lenN (snd l) + 1) ++ flat_map be16 (snd l).
+Definition set_bytes (s : list lig) : list N :=
+  be16 (lenN s) ++ flat_map be16 (lig_offs s (2 + 2 * lenN s)) ++ flat_map lig_bytes s.
+
+Definition M_gsub41_encode (cov : list (N * Z)) (sets : list (list lig)) : outcome (list N) :=
+  let cnt := lenN sets in
+  let covOffs := 6 + 2 * cnt + sets_size sets in
+  cb <- M_cov_encode cov ;;                      (* total += l.Cov.EncodeLen() comes first *)
+  if 65535 <? covOffs then Panic                 (* "coverage offset overflow" *)
+  else Ok ([0; 1] ++ be16 covOffs ++ be16 cnt ++ flat_map be16 (set_offs sets (6 + 2 * cnt)) ++
+           flat_map set_bytes sets ++ cb).
+
+(* ligatureGlyph, componentCount, then componentCount-1 (uint16!) components *)
+Definition rd_lig (r : list N) : outcome lig :=
+  match r with
+  | a :: b :: c :: d :: r' =>
+    x <- rd_u16s (N.to_nat ((w16 c d + 65535) mod 65536)) r' ;; Ok (w16 a b, fst x)
+  | _ => Err
+  end.
+
+Fixpoint rd_ligs (data : list N) (setPos : N) (offs : list N) : outcome (list lig) :=
+  match offs with
+  | [] => Ok []
+  | o :: r =>
+    l <- rd_lig (seek data (setPos + o)) ;;
+    tl <- rd_ligs data setPos r ;;
+    Ok (l :: tl)
+  end.
+
+Fixpoint rd_sets (data : list N) (pos : N) (offs : list N) : outcome (list (list lig)) :=
+  match offs with
+  | [] => Ok []
+  | o :: r =>
+    x <- rd_slice (seek data (pos + o)) ;;
+    s <- rd_ligs data (pos + o) (fst x) ;;
+    tl <- rd_sets data pos r ;;
+    Ok (s :: tl)
+  end.
+
+Definition M_gsub41_read (data : list N) (pos : N) : outcome (list (N * N) * list (list lig)) :=
+  match seek data (pos + 2) with
+  | a :: b :: r =>
+    x <- rd_slice r ;;
+    cov <- M_cov_read data (pos + w16 a b) ;;
+    let pr := prune_pair cov (fst x) in
+    sets <- rd_sets data pos (snd pr) ;;
+    if 65535 <? 6 + 2 * lenN sets + sets_size sets then Err     (* "GSUB 4.1 too large" *)
+    else Ok (fst pr, sets)
+  | _ => Err
+  end.
+
+(* ------------------------------------------------------------------ *)
 (* GPOS 1.1  {Cov coverage.Table; Adjust *GposValueRecord}              *)
 
 Definition M_gpos11_len (cov : list (N * Z)) (adj : option vrec) : outcome N :=
@@ -313,6 +386,7 @@ Inductive subtable :=
 | SGsub12 (cov : list (N * N)) (subst : list N)
 | SGsub21 (cov : list (N * N)) (seqs : list (list N))
 | SGsub31 (cov : list (N * N)) (seqs : list (list N))
+| SGsub41 (cov : list (N * N)) (sets : list (list lig))
 | SGpos11 (cov : list (N * N)) (adj : option vrec)
 | SGpos12 (cov : list (N * N)) (adj : list (option vrec)).
 
@@ -339,6 +413,7 @@ Definition M_sub_read (gpos : bool) (data : list N) (pos : N) (lookupType : N) :
       else if key =? 12 then x <- M_gsub12_read data pos ;; Ok (SGsub12 (fst x) (snd x))
       else if key =? 21 then x <- M_gsubseq_read data pos ;; Ok (SGsub21 (fst x) (snd x))
       else if key =? 31 then x <- M_gsubseq_read data pos ;; Ok (SGsub31 (fst x) (snd x))
+      else if key =? 41 then x <- M_gsub41_read data pos ;; Ok (SGsub41 (fst x) (snd x))
       else OutOfFuel
   | _ => Err
   end.
@@ -364,3 +439,5 @@ Definition gids_ok (l : list N) : Prop := Forall (fun x => x < 65536) l.
 
 Definition seq_ok (s : list N) : Prop := gids_ok s /\ lenN s < 65536.
 
+
+Definition lig_ok (l : lig) : Prop := fst l < 65536 /\ gids_ok (snd l).
